@@ -561,6 +561,15 @@ class System:
         # if component/rail name changes, check that it is unique
         if name != comp._params["name"]:
             self._chk_name(comp._params["name"], rail)
+        elif rail != "":
+            # same name: the rail must still be unique (own current rail excepted)
+            if name == rail:
+                raise ValueError("Component name and rail name cannot be the same!")
+            orails = [
+                self._g.attrs["rails"][k] for k in self._g.attrs["rails"] if k != name
+            ]
+            if rail in self._g.attrs["nodes"].keys() or rail in orails:
+                raise ValueError('Rail name "{}" is already used!'.format(rail))
 
         eidx = self._get_index(name)
         # source can only be changed to source
@@ -572,6 +581,11 @@ class System:
         if self._g[eidx]._component_type == _ComponentTypes.PMUX:
             if not isinstance(comp, PMux):
                 raise ValueError("PMux cannot be changed to other type!")
+        # can only have one pmux
+        elif comp._component_type == _ComponentTypes.PMUX:
+            for key in self._g.attrs["nodes"]:
+                if self._g[self._g.attrs["nodes"][key]]._component_type.name == "PMUX":
+                    raise ValueError("a system can only have one PMux")
 
         # check that parent allows component type as child
         parents = self._get_parents()
@@ -582,6 +596,16 @@ class System:
                         comp._component_type.name
                     )
                 )
+        # check that component allows its existing childs
+        childs = self._get_childs()
+        if childs[eidx] != -1:
+            for c in childs[eidx]:
+                if not self._g[c]._component_type in comp._child_types:
+                    raise ValueError(
+                        "Component of type {} does not allow child of type {}!".format(
+                            comp._component_type.name, self._g[c]._component_type.name
+                        )
+                    )
         self._g[eidx] = comp
         # replace node name in graph dict
         del [self._g.attrs["nodes"][name]]
